@@ -51,7 +51,11 @@ def run(ctx):
         a = impl[c['id']]; kind, fault = meta[c['id']]
         if kind == 'bad':
             faults[fault] = faults.get(fault, 0) + 1
-            if a['result'] in ('ok', 'cli'): continue            # the corruption happened to be valid (e.g. truncation to a valid prefix): not a C18 case
+            m = model.get(c['id'])
+            # the corruption happened to be valid (e.g. truncation to a valid prefix): not a C18 case. Validity is judged by the
+            # model's reader (proved to accept every spelling of every expression and tied to the registry by Gen.FnTable), not by the
+            # implementation under test: an invalid configuration that the implementation accepts is a violation
+            if a['result'] == 'cli' or (a['result'] == 'ok' and (m is None or lib.kind(m) == 'ok')): continue
             checked += 1
             if not a['result'].startswith('err:') or a['stdout'] or a['stdin_opened'] or a['pulled']:
                 violations.append({'property': 'C18', 'relation': 'an invalid configuration is reported before any input is read and before anything is written',
